@@ -104,6 +104,7 @@ func c13(p *model.Prog, r *report.Result) {
 	c13Stap(p, r)
 	c13Guards(p, r)
 	c13List(p, r)
+	c13RtpHdr(p, r)
 	r.Rule("C13.NILF", "fields that lal itself compares with nil somewhere (unset until a later protocol step, or cleared at teardown) are, in every function reachable from the surfaces' entry points, dereferenced only behind the non-nil edge of a test of the same field expression or a dominating non-nil store; reviewed exceptions are listed per (function, field)")
 	var scope []*ssa.Function
 	for f := range reach {
